@@ -371,6 +371,55 @@ func emitNonrevAttacks(g *Rng, kp *KeyPair, ir *issuerRev, cred *gabi.Credential
 			tf["nonrev_proof"] = T{"C_r": I(z), "C_u": I(z), "responses": T{"beta": I(bi(1)), "delta": I(bi(1)), "epsilon": I(bi(1)), "zeta": I(bi(1))},
 				"sacc": saccTree(&revocation.SignedAccumulator{Data: sacc.Data, PKCounter: sacc.PKCounter})}
 			emit(nrOp(kp, tf, ctx, nonce, "nr-forged-zero-commitments", "reject").with("fkey", "C11/nonunit-commitments"))
+			// the mixed form: C_r an honest unit, only C_u a (positive) multiple of N. The relations
+			// that involve C_r alone are proven honestly with the revocation attribute e, which the
+			// revoked holder knows; the one relation that involves the witness (nu = C_u^e h^-(e r2))
+			// collapses to 0.
+			for _, mult := range []int64{1, 2} {
+				pk := kp.pk
+				e := cred.NonRevocationWitness.E
+				b, err := plain.CreateDisclosureProofBuilder([]int{1}, nil, false)
+				if err != nil {
+					panic(err)
+				}
+				_, _, attrRand := b.VerifRandomizers()
+				ra := g.bits(500)
+				attrRand[revIdx] = ra
+				contribs, err := b.Commit(map[string]*big.Int{"secretkey": g.exactBits(592)})
+				if err != nil {
+					panic(err)
+				}
+				r2, r3 := g.bits(1000), g.bits(1000)
+				rb, rd, re, rz := g.bits(1500), g.bits(1500), g.bits(1300), g.bits(1300)
+				exp := func(base, x *big.Int) *big.Int {
+					if x.Sign() < 0 {
+						inv := new(big.Int).ModInverse(base, pk.N)
+						return new(big.Int).Exp(inv, new(big.Int).Neg(x), pk.N)
+					}
+					return new(big.Int).Exp(base, x, pk.N)
+				}
+				mul := func(xs ...*big.Int) *big.Int {
+					r := bi(1)
+					for _, x := range xs {
+						r.Mul(r, x).Mod(r, pk.N)
+					}
+					return r
+				}
+				cr := mul(exp(pk.G, r2), exp(pk.H, r3))
+				cu := new(big.Int).Mul(pk.N, bi(mult))
+				t1 := mul(exp(pk.G, re), exp(pk.H, rz))
+				t3 := mul(exp(cr, ra), exp(pk.G, new(big.Int).Neg(rb)), exp(pk.H, new(big.Int).Neg(rd)))
+				contribs = append(contribs, cr, cu, na.Nu, t1, bi(0), t3)
+				c := gabi.VerifCreateChallenge(ctx, nonce, contribs, false)
+				fp := b.CreateProof(c).(*gabi.ProofD)
+				tf := proofDTree(fp)
+				resp := func(r, secret *big.Int) *big.Int { return new(big.Int).Add(r, new(big.Int).Mul(c, secret)) }
+				tf["nonrev_proof"] = T{"C_r": I(cr), "C_u": I(cu), "responses": T{
+					"beta": I(resp(rb, new(big.Int).Mul(e, r2))), "delta": I(resp(rd, new(big.Int).Mul(e, r3))),
+					"epsilon": I(resp(re, r2)), "zeta": I(resp(rz, r3))},
+					"sacc": saccTree(&revocation.SignedAccumulator{Data: sacc.Data, PKCounter: sacc.PKCounter})}
+				emit(nrOp(kp, tf, ctx, nonce, "nr-forged-Cu-multiple-of-N", "reject").with("fkey", "C11/nonunit-commitments"))
+			}
 		}
 	}
 	// non-revocation part dropped
